@@ -197,6 +197,7 @@ Vecs == SetToSeq(Seqs)
     rep.notes["histories_differing_from_the_intended_counter_design"] = len(pbad)
     rep.sample({"history": meta[len(meta) // 2]})
     rep.exhaustive = True
+    supplied_bytes(rep)
 
     # ---- T: long random histories
     rng = random.Random(rep.seed * 7919 + 16)
@@ -248,6 +249,12 @@ Vecs == SetToSeq(Seqs)
 def replay(rep, path):
     r = json.load(open(path))["replay"]
     drv = Driver(dictx.by_name())
+    if r["kind"] == "supplied":
+        supplied_bytes(rep)
+        rep.case(str(r)[:80])
+        rep.states, rep.transitions = 1, 1
+        rep.sample(r)
+        return rep.finish()
     if r["kind"] == "history":
         gens, problems = drv.run([tuple(o) for o in r["ops"]])
         ids = [g["raw"] for g in gens]
@@ -259,3 +266,28 @@ def replay(rep, path):
     rep.states, rep.transitions = 1, 1
     rep.sample(r)
     return rep.finish()
+
+
+
+def supplied_bytes(rep):
+    """a Session-Id supplied as bytes is carried unchanged: through the AVP constructor, a typed message, item assignment and a bulk
+    update - alone, or together with a new origin (in either key order)"""
+    from bromelia.base import DiameterMessage
+    from bromelia.avps import SessionIdAVP, OriginHostAVP, OriginRealmAVP
+    given = [b"other.example;1;2", b"x", b"no-semicolon-at-all", b"a.b;4294967295;4294967295;opt;more", "é;1;2".encode()]
+    for g in given:
+        rep.case(("supplied", g))
+        try:
+            if SessionIdAVP(g).data != g:
+                rep.violation(f"SessionIdAVP({g!r}) carries {SessionIdAVP(g).data!r}", {"kind": "supplied", "bytes": list(g)})
+            for keys in (("session_id",), ("session_id", "origin_host"), ("origin_host", "session_id"), ("origin_realm", "session_id", "origin_host")):
+                msg = DiameterMessage(avps=[SessionIdAVP(b"first.example;7;7"), OriginHostAVP("first.example"), OriginRealmAVP("example")])
+                upd = {k: {"session_id": g, "origin_host": "second.example", "origin_realm": "realm2"}[k] for k in keys}
+                msg.update_avps(upd)
+                if msg.session_id_avp.data != g:
+                    rep.violation(f"update_avps with keys {list(keys)}: the Session-Id supplied as bytes {g!r} is not carried, the message has "
+                                  f"{msg.session_id_avp.data!r}", {"kind": "supplied", "bytes": list(g), "keys": list(keys)})
+                if "origin_host" in keys and msg.origin_host_avp.data != b"second.example":
+                    rep.violation(f"update_avps with keys {list(keys)}: Origin-Host not updated", {"kind": "supplied", "bytes": list(g), "keys": list(keys)})
+        except BaseException as e:
+            rep.violation(f"a Session-Id supplied as bytes ({g!r}) raised {type(e).__name__}: {e}", {"kind": "supplied", "bytes": list(g)})
